@@ -657,8 +657,11 @@ def fold_roundtrip(m: Model, lexinfo, deep=False):
              ('((A & B) > A)', 'CKaba'), ('~(A & B)', 'NKab'), ('~~A', 'NNa'), ('PA', 'Ma'), ('Fa', 'Fm'), ('Gab', 'Gmn'), ('a=b', 'Imn'), ('!a', 'Jm'),
              ('LxFx', 'VxFx'), ('XxGxa', 'SxGxm'), ('LxXyGxy', 'VxSyGxy'), ('Lx(Fx & A)', 'VxKFxa'), ('LxFx & LxFx', 'KVxFxVxFx'),
              ('(LxFx > XxFx)', 'CVxFxSxFx'), ('Lxx=a', 'VxIxm'), ('~a=b', 'NImn'), ('A & (B V A)', 'KaAba'), ('A1', 'a1'), ('Fa1', 'Fm1'),
-             ('Xx~Fx', 'SxNFx'), ('(A & B) & (B & A)', 'KKabKba'), ('LxXy(Gxy & Fx)', 'VxSyKGxyFx')]
-    variants = lambda t: [t, ' ' + t + '  ', t.replace(' ', '   '), t.replace('(', '( ').replace(')', ' )')] + ([f'({t})'] if ' ' in t and not t.startswith('(') and t[0] not in '~LXP' else [])
+             ('Xx~Fx', 'SxNFx'), ('(A & B) & (B & A)', 'KKabKba'), ('LxXy(Gxy & Fx)', 'VxSyKGxyFx'),
+             # subscripted symbols followed by whitespace (the cursor must sit on the next non-blank character after a subscript)
+             ('L x1 F x1', 'Vx1Fx1'), ('Lx1 Fx1', 'Vx1Fx1'), ('a1 = b', 'Im1n'), ('G a1 b2', 'Gm1n2'), ('A1 & B2', 'Ka1b2'), ('Xy3 (Gy3a V ~Fy3)', 'Sy3AGy3mNFy3'),
+             ('F a1', 'Fm1')]
+    variants = lambda t: [t, ' ' + t + '  ', t.replace(' ', '   '), t.replace('(', '( ').replace(')', ' )')] + ([f'({t})'] if any(op_ in t for op_ in (' & ', ' V ', ' > ')) and not t.startswith('(') and t[0] not in '~LXP' else [])
     for std, pol in pairs:
         try:
             want = reference_polish(L, table, Marking, pol, declared)
